@@ -219,6 +219,14 @@ Section Assoc.
     - apply eqb_eq in E; subst. inversion H; subst. reflexivity.
     - f_equal. auto.
   Qed.
+  Lemma aset_aset : forall (m : list (K * V)) k v v', aset eqb (aset eqb m k v) k v' = aset eqb m k v'.
+  Proof.
+    induction m as [|[k0 v0] m IH]; intros k v v'; simpl.
+    - rewrite eqb_refl'. reflexivity.
+    - destruct (eqb k k0) eqn:E; simpl.
+      + rewrite eqb_refl'. reflexivity.
+      + rewrite E. f_equal. apply IH.
+  Qed.
   Lemma aget_In :forall (m : list (K * V)) k v, aget eqb m k = Some v -> In (k, v) m.
   Proof.
     induction m as [|[k0 v0] m IH]; intros k v H; simpl in *; try discriminate.
